@@ -44,6 +44,9 @@ func randScalar(r *rand.Rand) *big.Int {
 // neighbours around limb, half-limb and window boundaries, values whose low or high part is all zeros
 // or all ones, r minus such values. Scalar-multiplication code with a "short exponent" path, a window
 // recoding or a limb loop treats exactly these differently from a random scalar.
+// shapedAlways: the last entries of shapedScalars (the Montgomery constants) are used in every tier.
+const shapedAlways = 54
+
 func shapedScalars(r *rand.Rand) []*big.Int {
 	seen := map[string]bool{}
 	var out []*big.Int
@@ -82,6 +85,26 @@ func shapedScalars(r *rand.Rand) []*big.Int {
 	add(new(big.Int).Lsh(ff, 120)) // ones in the upper part
 	add(new(big.Int).SetBytes(bytes.Repeat([]byte{0x55}, 31)))
 	add(new(big.Int).SetBytes(bytes.Repeat([]byte{0x0f}, 32)))
+	// constants of the Montgomery representation modulo r (a scalar that is compared with, or mistaken for,
+	// "one" or "zero" in the other representation): 2^256 mod r, its square, cube and inverse, 2^-512, each
+	// also with its four 64-bit limbs and its 32 bytes in reverse order, and their neighbours
+	mont := new(big.Int).Mod(new(big.Int).Lsh(one, 256), ref.R)
+	rev := func(k *big.Int, unit int) *big.Int {
+		b := k.FillBytes(make([]byte, 32))
+		o := make([]byte, 32)
+		for i := 0; i < 32; i += unit {
+			copy(o[32-unit-i:32-i], b[i:i+unit])
+		}
+		return new(big.Int).SetBytes(o)
+	}
+	minv := new(big.Int).ModInverse(mont, ref.R)
+	for _, c := range []*big.Int{mont, ref.Fr.Mul(mont, mont), ref.Fr.Mul(ref.Fr.Mul(mont, mont), mont), minv, ref.Fr.Mul(minv, minv), ref.Fr.Neg(mont)} {
+		for _, v := range []*big.Int{c, rev(c, 8), rev(c, 1)} {
+			add(v)
+			add(new(big.Int).Add(v, one))
+			add(new(big.Int).Sub(v, one))
+		}
+	}
 	return out
 }
 
